@@ -14,7 +14,8 @@ THEOREMS = {
             "Cntgs.C13.elem_eq_iff_content_generic", "Cntgs.C13.vec_eq_needs_equal_size", "Cntgs.C13.vec_eq_empty",
             "Cntgs.encode_inj", "Cntgs.runs_ok"],
     "C14": ["Cntgs.C14.elem_operators", "Cntgs.C14.vec_operators", "Cntgs.C14.elem_lt_strict", "Cntgs.C14.vec_lt_irrefl_asymm",
-            "Cntgs.C14.vec_lt_trans_fastpath", "Cntgs.C14.vec_lt_not_transitive", "Cntgs.C14.vec_lt_is_lexicographical", "Cntgs.C14.vec_lt_fastpath_is_lexicographical"],
+            "Cntgs.C14.vec_lt_trans_fastpath", "Cntgs.C14.vec_lt_not_transitive", "Cntgs.C14.vec_lt_is_lexicographical", "Cntgs.C14.vec_lt_fastpath_is_lexicographical",
+            "Cntgs.C14.ordVal_signed_is_value_order", "Cntgs.C14.ordVal_unsigned"],
     "C15": ["Cntgs.C15.toInt_mod", "Cntgs.C15.memcpy_sound", "Cntgs.C15.stored_is_converted", "Cntgs.C15.lvalue_not_moved",
             "Cntgs.C15.rvalue_moved"],
     "C11": ["Cntgs.C11.assign_copies_all_fields", "Cntgs.C11.copy_assign_keeps_source", "Cntgs.C11.move_assign_source",
@@ -97,6 +98,9 @@ def stream_layout(seed, tier):
         for mode in ((0, 1, 2, 3) if tier == "quick" else (0, 0, 0, 1, 2, 2, 3, 3)):
             out.append((c, gen.gen_tight_fill(rng, c, mode)))
         out.append((c, gen.gen_capacity_sweep(rng, c)))
+        d = gen.gen_default_fill(rng, c)
+        if d:
+            out.append((c, d))
     # element-wise relocation (non-trivial value types): equal element sizes keep it free of the known overlap, so that
     # the layout after erase in the middle is compared object by object
     for c in [c for c in gen.CORPUS if c.tracked()]:
@@ -168,6 +172,14 @@ COMPARE_CORPUS = [
     gen.Cfg("cmp-blob-varying", [("p", "u16", 1), ("v", "b3", 1), ("p", "b5", 2)]),
     gen.Cfg("cmp-trk", [("p", "u8", 1), ("v", "t5", 1), ("p", "t8", 1)]),
     gen.Cfg("cmp-mixed-runs", [("p", "u8", 1), ("p", "t5", 1), ("p", "u8", 1), ("p", "u8", 2), ("f", "u8", 1)]),
+    # signed bytes: memcmp decides equality but not order
+    # adjacent FixedSize fields inside one memcmp run: the same bytes cut into fields of other sizes are not equal
+    gen.Cfg("cmp-two-fixed-run", [("f", "u8", 1), ("f", "u8", 1)]),
+    gen.Cfg("cmp-two-fixed-run-elementwise", [("f", "u16", 1), ("f", "u16", 1), ("p", "f32", 1)]),
+    gen.Cfg("cmp-signed-plain", [("p", "i8", 1)]),
+    gen.Cfg("cmp-signed-fixed", [("f", "i8", 1), ("p", "i8", 1)]),
+    gen.Cfg("cmp-signed-mixed", [("p", "u8", 1), ("p", "i8", 1), ("f", "u8", 1)]),
+    gen.Cfg("cmp-signed-varying", [("p", "u8", 1), ("v", "i8", 1)]),
 ]
 
 
@@ -185,6 +197,18 @@ def stream_compare(seed, tier):
     for c in cfgs:
         for s in range(3 if tier == "quick" else 8):
             out.append((c, gen.gen_compare(rng, c, 30 if tier == "quick" else 80)))
+        out.append((c, gen.gen_empty_compare(rng, c)))
+    return out
+
+
+def stream_empty_compare(seed, tier):
+    """C18: empty vectors of every origin compare equal whatever their fixed sizes and capacities"""
+    rng = random.Random(seed * 32452843 + 18)
+    cfgs = list(COMPARE_CORPUS) + [c for c in gen.CORPUS if not c.tracked()][:12]
+    out = []
+    for c in cfgs:
+        for s in range(1 if tier == "quick" else 4):
+            out.append((c, gen.gen_empty_compare(rng, c)))
     return out
 
 
@@ -261,7 +285,7 @@ STREAMS = {
     "C06": lambda seed, tier: stream_history(seed, tier) + stream_alloc(seed, tier) + stream_element(seed, tier),
     "C10": stream_history,
     "C16": lambda seed, tier: stream_history(seed, tier) + stream_alloc(seed, tier),
-    "C18": lambda seed, tier: stream_history(seed, tier) + stream_alloc(seed, tier),
+    "C18": lambda seed, tier: stream_history(seed, tier) + stream_alloc(seed, tier) + stream_empty_compare(seed, tier),
     "C07": lambda seed, tier: stream_alloc(seed, tier) + stream_element(seed, tier),
     "C08": lambda seed, tier: stream_alloc(seed, tier) + stream_element(seed, tier),
     "C09": stream_alloc,
